@@ -42,6 +42,17 @@ def parse(prog):
   return body()[0]
 
 
+_BLOCKS = {}
+
+
+def lifted_block(lift, sub):
+  """The lifted helper of a block, created once per (lift, body) so that repeated applies hit its trace cache."""
+  if (lift, sub) not in _BLOCKS:
+    helper = (lambda m, sub=sub: run_items(m, sub))
+    _BLOCKS[(lift, sub)] = {'remat': nn.remat, 'jit': nn.jit, 'none': (lambda f: f)}[lift](helper)
+  return _BLOCKS[(lift, sub)]
+
+
 def run_items(mdl, items):
   """Executes body items on module `mdl`; returns (acc, [observation arrays])."""
   acc = jnp.zeros((), jnp.uint32)
@@ -95,8 +106,7 @@ def run_items(mdl, items):
       acc = acc * 31 + jnp.sum(kd)
     elif k == 'G':
       _, lift, sub = item
-      helper = (lambda m, sub=sub: run_items(m, sub))
-      a, o = ({'remat': nn.remat}[lift](helper) if lift != 'none' else helper)(mdl)
+      a, o = lifted_block(lift, sub)(mdl)
       acc = acc * 31 + a
       obs += list(o)
     elif k == 'E':
